@@ -212,7 +212,8 @@ Definition tstep (o : oracle) (me : nat) (g : G) (l : pc) : G * pc :=
           if word_eqb (tw_of g t) w0 then
             let nw := {| st := st_active; tag := tag w0 + 1 |} in
             let k := tasks g t in
-            let g1 := set_task g t {| tw := nw; todo := todo k; ph := S (ph k); reg := reg k; wake := wake k |} in
+            (* ghost: a new phase starts with no registration and no wake-up issued for it *)
+            let g1 := set_task g t {| tw := nw; todo := todo k; ph := S (ph k); reg := None; wake := None |} in
             (add_log (add_log g1 (EvWord t SiteAct w0 nw)) (EvEnter t (ph k) me), WRun t nw SNone)
           else (g, WTop)                       (* "some other worker got in between": no execution *)
       | st_active => (push g t, WTop)          (* still marked active: re-schedule *)
@@ -338,3 +339,51 @@ Definition chain_of (t : nat) (l : list ev) : list (wsite * word * word) :=
 
 (* queue discipline seen by the hooks: a push is logged with the word read just before it *)
 Definition push_ok (w : word) : bool := sst_beq (st w) st_pending.
+
+(* ------------------------------------------------------------------ boolean monitors (evaluated by
+   the extracted model during the failing-input search: tools/props/c01.py, kind MRUN) *)
+Definition pev_eqb (a b : pev) : bool :=
+  match a, b with
+  | PEnter i, PEnter j => Nat.eqb i j
+  | PExit i, PExit j => Nat.eqb i j
+  | _, _ => false
+  end.
+Fixpoint list_eqb {A} (eqb : A -> A -> bool) (l1 l2 : list A) : bool :=
+  match l1, l2 with
+  | [], [] => true
+  | x :: r1, y :: r2 => eqb x y && list_eqb eqb r1 r2
+  | _, _ => false
+  end.
+Definition running_b (l : pc) (t : nat) : bool :=
+  match l with
+  | WRun t' _ _ | WStoreL t' _ _ | WStoreC t' _ _ _ => Nat.eqb t' t
+  | _ => false
+  end.
+Fixpoint nodup_b (l : list nat) : bool :=
+  match l with [] => true | x :: r => negb (existsb (Nat.eqb x) r) && nodup_b r end.
+Definition enters_of (t : nat) (l : list ev) : nat :=
+  length (filter (fun p => match p with PEnter _ => true | _ => false end) (phases_of t l)).
+(* wake-up obligation (C02): no task is suspended although a wake-up was issued for the phase in
+   which it registered *)
+Definition wake_pending_b (g : G) (t : nat) : bool :=
+  match wake (tasks g t) with
+  | Some p => sst_beq (st (tw_of g t)) st_suspended && N.eqb (tag (tw_of g t)) (p + 1)
+  | None => false
+  end.
+Definition mon_ok (T : nat) (c : G * (nat -> pc)) : bool :=
+  let g := fst c in
+  forallb (fun t =>
+             list_eqb pev_eqb (phases_of t (rev (log g))) (alt (length (phases_of t (log g))))
+             && Nat.leb (length (filter (fun a => running_b (snd c a) t) (seq 0 T))) 1
+             && accepts (chain_of t (log g))
+             && Nat.eqb (activations (chain_of t (log g))) (enters_of t (log g)))
+          (seq 0 (ntasks g))
+  && nodup_b (pend g).
+(* is the configuration quiescent (as far as threads 0..T-1 are concerned)? *)
+Definition idle_b (T : nat) (c : G * (nat -> pc)) : bool :=
+  match pend (fst c), staged (fst c) with
+  | [], [] => forallb (fun a => match snd c a with WTop | XRun [] SNone => true | _ => false end) (seq 0 T)
+  | _, _ => false
+  end.
+Definition lost_wakeup_b (T : nat) (c : G * (nat -> pc)) : bool :=
+  idle_b T c && existsb (wake_pending_b (fst c)) (seq 0 (ntasks (fst c))).
